@@ -143,6 +143,61 @@ def library_programs():
     return progs
 
 
+ASC = [["-10", "-2", "3", "9", "10", "25", "100"], ["-1.5", "-1", "2", "2.5", "10", "100.25"], ["''", "'a'", "'a b'", "'a!'", "'a\\''", "'ab'", "'b'", "'ba'"],
+       ["[1, 9]", "[1, 10]", "[2]", "[10]"], ["'A'", "'B'", "'a'", "'b'"], ["9", "10"], ["1"]]
+SETFORMS = ["[x for x in c]", "def r = []; for x in c do append(r, x) end; r", "list(c)", "[...c]", "def [p, q] = c; [p, q]", "[[x, y] for x in c also for y in c]",
+            "[[x, y] for x in c for y in c]", "[x for x in c if x == x]", "def seen = []; def t = <<append(seen, x)[0] for x in c>>; seen",
+            "def seen = []; def t = <<<x => append(seen, x) for x in c>>>; seen",
+            "def seen = []; def t = <<append(seen, x) for x in c also for y in c>>; seen", "def f(p, q = 0, t...) [p, q, t]; f(...c)", "sorted(c)", "[x for x in set(c)]",
+            "def r = []; for x in c do for y in c do append(r, [x, y]) end end; r", "def r = []; def i = 0; while i < 1 do for x in c do append(r, x) end; i += 1 end; r"]
+MAPFORMS = [("[k for k in keys m]", "[k for k in $K]"), ("[v for v in values m]", "[v for v in $V]"), ("[v for v in m]", "[v for v in $V]"),
+            ("[e for e in entries m]", "[e for e in $E]"),
+            ("def r = []; for k in keys m do append(r, k) end; r", "$K"), ("def r = []; for v in values m do append(r, v) end; r", "$V"),
+            ("def r = []; for v in m do append(r, v) end; r", "$V"), ("def r = []; for e in entries m do append(r, e) end; r", "$E"),
+            ("[[a, b] for a in keys m for b in values m]", "[[a, b] for a in $K for b in $V]"), ("[[a, b] for a in keys m also for b in values m]", "[[a, b] for a in $K also for b in $V]"),
+            ("[[a, b] for a in [1, 2] for b in keys m]", "[[a, b] for a in [1, 2] for b in $K]"), ("[[a, b] for a in $K also for b in entries m]", "[[a, b] for a in $K also for b in $E]"),
+            ("def seen = []; def t = <<append(seen, k)[0] for k in keys m>>; seen", "$K"), ("def seen = []; def t = <<<k => append(seen, k) for k in keys m>>>; seen", "$K"),
+            ("def seen = []; def t = <<<1 => append(seen, v) for v in values m>>>; seen", "$V"), ("def seen = []; def t = <<append(seen, e)[0] for e in entries m also for z in $K>>; seen", "$E"),
+            ("sorted(list(set(m)))", "$K"), ("def [p, q] = set(m); [p, q]", "def [p, q] = $K; [p, q]")]
+
+
+def ascending(rep, rnd):
+    """set / map enumeration forms against the same form over the ascending list"""
+    from vlib import impl
+    I = impl.new_interpreter(False, False)
+    bad = n = 0
+    for asc in ASC:
+        L = "[" + ", ".join(asc) + "]"
+        for i in range(len(asc) - 1):      # the listing is ascending under the language's own <
+            rep.count()
+            if impl.run_src(I, "%s < %s" % (asc[i], asc[i + 1]))[1] != "(b 1)":
+                bad += 1
+                rep.violation("input", "%s < %s is not TRUE" % (asc[i], asc[i + 1]), check="ascending", program="%s < %s" % (asc[i], asc[i + 1]))
+        for trial in range(3):
+            perm = list(asc)
+            rnd.shuffle(perm)
+            C = "<<" + ", ".join(perm) + ">>"
+            vals = ["'v%d'" % (i * 7 % 5) for i in range(len(asc))]
+            order = list(range(len(asc)))
+            rnd.shuffle(order)
+            M = "<<<" + ", ".join("%s => %s" % (asc[i], vals[i]) for i in order) + ">>>"
+            K, V, E = L, "[" + ", ".join(vals) + "]", "[" + ", ".join("[%s, %s]" % (asc[i], vals[i]) for i in range(len(asc))) + "]"
+            cases = [("def c = %s; %s" % (C, f), "def c = %s; %s" % (L, f)) for f in SETFORMS]
+            cases += [("def m = %s; " % M + f.replace("$K", K).replace("$V", V).replace("$E", E), g.replace("$K", K).replace("$V", V).replace("$E", E)) for f, g in MAPFORMS]
+            for a, b in cases:
+                ra, rb = impl.run_src(I, "do %s end" % a), impl.run_src(I, "do %s end" % b)
+                rep.count()
+                n += 1
+                if rb[0] != "val":
+                    raise RuntimeError("C12 ascending: the reference form %r is not a value: %r" % (b, rb))
+                if ra[:2] != rb[:2]:
+                    bad += 1
+                    rep.violation("input", "%s gives %s, but over the ascending listing (%s) the same path gives %s" % (a, ra[:2], b, rb[:2]), check="ascending", program=a, other=b)
+    rep.oblige("%d enumeration paths over sets and maps (comprehensions of all kinds, loops, conversion, spread, destructuring) give what the same path gives over the ascending list" % n,
+               bad == 0, "%d differences" % bad)
+    return n
+
+
 def run_seed(progs, seed, legacy=False):
     env = dict(os.environ, PYTHONHASHSEED=str(seed), PYTHONPATH=core.SRC)
     p = subprocess.run([core.PY, os.path.join(core.VERIF, "tools", "seedworker.py")] + (["legacy"] if legacy else []),
@@ -203,6 +258,9 @@ def main(tier, seed, replay=None):
                 rep.violation("input", "%s gives %s under PYTHONHASHSEED=%s but %s under PYTHONHASHSEED=%s" % (prog, mres_[sd][k], sd, mres_[seeds[0]][k], seeds[0]),
                               check="mixed-date-number", program=prog, seeds=[seeds[0], sd])
                 break
+    # "all enumerate them in sorted order": every enumeration path over a set / map gives what the same path gives over the ascending list
+    # (elements whose ascending order differs from the order of their texts, of their hashes and of their insertion)
+    asc_n = ascending(rep, rnd)
     base = results[seeds[0]]
     dis = 0
     three = 0
